@@ -1,5 +1,6 @@
 SPECIFICATION Spec
 CONSTANTS MaxEdit = 3  MaxInv = 4  MaxKill = 2  MaxFail = 1  GenDepth = 0
+CONSTANT Flags = {"plain"}
 CONSTANT Weak = {}
 VIEW view
 INVARIANT IncrementalEqClean
